@@ -285,7 +285,7 @@ func genDec(r *vc.Rand, thorough bool) []caseLine {
 		}
 	}
 	// (4) random: valid streams with structure-aware mutations, and plain random bytes
-	rounds := 500
+	rounds := 1500
 	if thorough {
 		rounds = 12000
 	}
@@ -389,7 +389,7 @@ func genRt(r *vc.Rand, thorough bool) []caseLine {
 		out = append(out, rtCase(fs, ones(n), r.Bool(), "one-byte"))
 	}
 	// (3) random sequences and partitions
-	rounds := 300
+	rounds := 800
 	if thorough {
 		rounds = 6000
 	}
